@@ -178,6 +178,19 @@ pub fn parse_cid(text: &str) -> CidParse {
         Some(b) => b,
         None => return CidParse::Malformed,
     };
+    // a text with non-zero padding bits (or otherwise not the canonical spelling of its bytes)
+    // may or may not be accepted by a decoder (RFC 4648 section 3.5): not judged
+    let respelled = match base {
+        'b' => Some(base32_lower(&bytes)),
+        'B' => Some(base32_lower(&bytes).to_ascii_uppercase()),
+        'z' => Some(bs58::encode(&bytes).into_string()),
+        _ => None,
+    };
+    if let Some(r) = respelled {
+        if r != rest {
+            return CidParse::UnknownBase;
+        }
+    }
     let mut pos = 0;
     let version = match read_varint(&bytes, &mut pos) {
         Some(v) => v,
